@@ -23,6 +23,8 @@ func init() {
 
 func runC20(ctx *Ctx) {
 	ruleEscapeSet(ctx, "C20-R1")
+	ruleEscapeMapping(ctx, "C20-R1m")
+	ruleResetComplete(ctx, "C20-R3u", "internal/nodemap", "Map", "UseRegistry", nil)
 	ruleErrorsNotDropped(ctx, "C20-R2", []string{"encoding/text"}, nil, func(callee string) bool {
 		if strings.HasPrefix(callee, "encoding/text.(*errWriter).") {
 			return false // sticky writer: the first error is latched in errWriter.err and returned by Encode
@@ -217,17 +219,21 @@ func ruleEscapeSet(ctx *Ctx, rule string) {
 	// printable ASCII other than quote/backslash must not be escaped needlessly? not required.
 	// Case constants of the escape switch in Append
 	var cases []int
-	for _, b := range ap.Blocks {
-		for _, in := range b.Instrs {
-			bo, ok := in.(*ssa.BinOp)
-			if !ok || bo.Op != token.EQL {
-				continue
-			}
-			if bt, ok := bo.X.Type().Underlying().(*types.Basic); !ok || bt.Kind() != types.Uint8 {
-				continue
-			}
-			if c, ok := ssaq.ConstInt(bo.Y); ok {
-				cases = append(cases, int(c))
+	// Append itself and the helpers that did not exist on the reference tree
+	// it calls (the per-byte switch may have been moved into one)
+	for _, fr := range ssaq.Frames(ap) {
+		for _, b := range fr.Fn.Blocks {
+			for _, in := range b.Instrs {
+				bo, ok := in.(*ssa.BinOp)
+				if !ok || bo.Op != token.EQL {
+					continue
+				}
+				if bt, ok := bo.X.Type().Underlying().(*types.Basic); !ok || bt.Kind() != types.Uint8 {
+					continue
+				}
+				if c, ok := ssaq.ConstInt(bo.Y); ok {
+					cases = append(cases, int(c))
+				}
 			}
 		}
 	}
